@@ -1,1 +1,191 @@
-// kani harnesses (included from /repo under cfg(kani))
+// C05-O1 / C30-O1: read kernels of a persisted relationship segment never panic and return exactly the stored edges.
+// Included from /repo/nervusdb-storage/src/csr.rs under cfg(kani).
+use super::*;
+
+/// the edge-free segment exactly as engine::build_segment_from_runs and BulkLoader::build_segments emit it
+fn edge_free_segment() -> CsrSegment {
+    CsrSegment {
+        id: SegmentId(kani::any()),
+        meta_page_id: kani::any(),
+        min_src: 0,
+        max_src: 0,
+        min_dst: 0,
+        max_dst: 0,
+        offsets: vec![0, 0],
+        edges: Vec::new(),
+        in_offsets: Vec::new(),
+        in_edges: Vec::new(),
+    }
+}
+
+fn opt_rel() -> Option<RelTypeId> {
+    if kani::any() { Some(kani::any()) } else { None }
+}
+
+#[kani::proof]
+#[kani::unwind(4)]
+fn c05_o1_q_edge_free_incoming() {
+    let seg = edge_free_segment();
+    let dst: u32 = kani::any();
+    let n = seg.incoming_neighbors(dst, opt_rel()).count();
+    std::mem::forget(seg);
+    kani::cover!(dst == 0, "witness: node 0 reachable");
+    assert!(n == 0, "segment: edge-free segment has no incoming relationships");
+}
+
+#[kani::proof]
+#[kani::unwind(4)]
+fn c05_o1_q_edge_free_outgoing() {
+    let seg = edge_free_segment();
+    let src: u32 = kani::any();
+    let n = seg.neighbors(src, opt_rel()).count();
+    std::mem::forget(seg);
+    kani::cover!(src == 0, "witness: node 0 reachable");
+    assert!(n == 0, "segment: edge-free segment has no outgoing relationships");
+}
+
+/// one-edge segment as the builders emit it (before persist builds the reverse index)
+fn one_edge_segment(s: u32, r: RelTypeId, d: u32) -> CsrSegment {
+    CsrSegment {
+        id: SegmentId(1),
+        meta_page_id: 0,
+        min_src: s,
+        max_src: s,
+        min_dst: 0,
+        max_dst: 0,
+        offsets: vec![0, 1],
+        edges: vec![EdgeRecord { rel: r, dst: d }],
+        in_offsets: Vec::new(),
+        in_edges: Vec::new(),
+    }
+}
+
+#[kani::proof]
+#[kani::unwind(4)]
+fn c05_o1_q_one_edge_outgoing() {
+    let s: u32 = kani::any();
+    let r: RelTypeId = kani::any();
+    let d: u32 = kani::any();
+    let seg = one_edge_segment(s, r, d);
+    let q: u32 = kani::any();
+    let mut it = seg.neighbors(q, None);
+    let first = it.next();
+    let second = it.next();
+    let ok = if q == s {
+        matches!(first, Some(e) if e.src == s && e.rel == r && e.dst == d) && second.is_none()
+    } else {
+        first.is_none()
+    };
+    std::mem::forget(it);
+    std::mem::forget(seg);
+    kani::cover!(q == s, "witness: hit reachable");
+    kani::cover!(q != s, "witness: miss reachable");
+    assert!(ok, "segment: outgoing(q) is exactly the stored edges with src q");
+}
+
+// ---- persist() with the page I/O stubbed out: builds the reverse index with the real code ----
+fn stub_write_blob_pages(_pager: &mut Pager, _blob: &[u8]) -> Result<Vec<u64>> {
+    Ok(Vec::new())
+}
+fn stub_allocate_page(_p: &mut Pager) -> Result<PageId> {
+    Ok(PageId::new(7))
+}
+fn stub_write_page(_p: &mut Pager, _id: PageId, _page: &[u8; PAGE_SIZE]) -> Result<()> {
+    Ok(())
+}
+
+fn fake_pager() -> &'static mut Pager {
+    // never dereferenced: every Pager method persist() calls is stubbed in the harnesses below
+    let layout = std::alloc::Layout::new::<Pager>();
+    unsafe { &mut *(std::alloc::alloc(layout) as *mut Pager) }
+}
+
+fn check_incoming_one(seg: &CsrSegment, s: u32, r: RelTypeId, d: u32) {
+    let q: u32 = kani::any();
+    let mut it = seg.incoming_neighbors(q, None);
+    let first = it.next();
+    let second = it.next();
+    let ok = if q == d {
+        matches!(first, Some(e) if e.src == s && e.rel == r && e.dst == d) && second.is_none()
+    } else {
+        first.is_none()
+    };
+    std::mem::forget(it);
+    kani::cover!(q == d, "witness: hit reachable");
+    kani::cover!(q != d, "witness: miss reachable");
+    assert!(ok, "segment: incoming(q) is exactly the stored edges with dst q");
+}
+
+#[kani::proof]
+#[kani::unwind(6)]
+#[kani::stub(write_blob_pages, stub_write_blob_pages)]
+#[kani::stub(Pager::allocate_page, stub_allocate_page)]
+#[kani::stub(Pager::write_page, stub_write_page)]
+fn c05_o1_t_persist_one_edge_incoming() {
+    let s: u32 = kani::any();
+    let r: RelTypeId = kani::any();
+    let d: u32 = kani::any();
+    let mut seg = one_edge_segment(s, r, d);
+    let res = seg.persist(fake_pager());
+    let ok = res.is_ok();
+    std::mem::forget(res);
+    assert!(ok, "segment: persist succeeds when page I/O succeeds");
+    check_incoming_one(&seg, s, r, d);
+    std::mem::forget(seg);
+}
+
+#[kani::proof]
+#[kani::unwind(6)]
+#[kani::stub(write_blob_pages, stub_write_blob_pages)]
+#[kani::stub(Pager::allocate_page, stub_allocate_page)]
+#[kani::stub(Pager::write_page, stub_write_page)]
+fn c05_o1_t_persist_edge_free_incoming() {
+    let mut seg = edge_free_segment();
+    let res = seg.persist(fake_pager());
+    let ok = res.is_ok();
+    std::mem::forget(res);
+    assert!(ok, "segment: persist succeeds when page I/O succeeds");
+    let q: u32 = kani::any();
+    let n = seg.incoming_neighbors(q, None).count();
+    let m = seg.neighbors(q, None).count();
+    std::mem::forget(seg);
+    kani::cover!(q == 0, "witness: node 0 reachable");
+    assert!(n == 0 && m == 0, "segment: persisted edge-free segment has no relationships");
+}
+
+/// two edges from the same source to two nearby destinations (d, d+gap), gap in 0..2
+#[kani::proof]
+#[kani::unwind(8)]
+#[kani::stub(write_blob_pages, stub_write_blob_pages)]
+#[kani::stub(Pager::allocate_page, stub_allocate_page)]
+#[kani::stub(Pager::write_page, stub_write_page)]
+fn c05_o1_a_persist_two_edges_incoming() {
+    let s: u32 = kani::any();
+    let d: u32 = kani::any();
+    let gap: u32 = kani::any();
+    kani::assume(gap <= 2 && d < u32::MAX - 4);
+    let r: RelTypeId = kani::any();
+    let mut seg = CsrSegment {
+        id: SegmentId(1),
+        meta_page_id: 0,
+        min_src: s,
+        max_src: s,
+        min_dst: 0,
+        max_dst: 0,
+        offsets: vec![0, 2],
+        edges: vec![EdgeRecord { rel: r, dst: d }, EdgeRecord { rel: r, dst: d + gap }],
+        in_offsets: Vec::new(),
+        in_edges: Vec::new(),
+    };
+    let res = seg.persist(fake_pager());
+    let ok = res.is_ok();
+    std::mem::forget(res);
+    assert!(ok, "segment: persist succeeds when page I/O succeeds");
+    let q: u32 = kani::any();
+    let n = seg.incoming_neighbors(q, None).count();
+    std::mem::forget(seg);
+    let expect = (q == d) as usize + (q == d + gap) as usize;
+    kani::cover!(n == 2, "witness: both edges on one destination reachable");
+    kani::cover!(n == 1, "witness: one edge reachable");
+    assert!(n == expect, "segment: incoming(q) counts exactly the stored edges with dst q");
+}
